@@ -90,4 +90,43 @@ PROPS = {
         ],
         "timeout": 1500,
     },
+    "C02": {
+        "lean_modules": ["JrpcProofs.Props.C02", "JrpcProofs.Lemmas.Corr", "JrpcProofs.Facts.Corr", "JrpcProofs.Facts.Frames"],
+        "assumptions": [
+            "hooks only delay goroutines; two log entries written by different goroutines around one channel rendezvous may come in either order and are reconciled by the replayer (tau steps are counted in the evidence)",
+            "ids of calls that are inside doRequest at the same time differ (id counter; int64 to float64 keys are injective below 2^53 calls)",
+            "'returns' / 'completes' are proved in safety form (every outstanding attempt has an owner that can move; no step of the exit path waits on another party); the final step needs scheduler fairness",
+            "the peer is honest: it answers only requests it executed (C10 covers hostile peers)",
+        ],
+        "timeout": 1500,
+    },
+    "C03": {
+        "lean_modules": ["JrpcProofs.Props.C03", "JrpcProofs.Lemmas.Corr", "JrpcProofs.Facts.Corr", "JrpcProofs.Facts.Frames"],
+        "assumptions": [
+            "hooks only delay goroutines; two log entries written by different goroutines around one channel rendezvous may come in either order and are reconciled by the replayer (tau steps are counted in the evidence)",
+            "ids of calls that are inside doRequest at the same time differ (id counter; int64 to float64 keys are injective below 2^53 calls)",
+            "'returns' / 'completes' are proved in safety form (every outstanding attempt has an owner that can move; no step of the exit path waits on another party); the final step needs scheduler fairness",
+            "a silent stall is noticed through the read deadline (C17); TCP loses only a suffix of the stream",
+        ],
+        "timeout": 2400,
+    },
+    "C04": {
+        "lean_modules": ["JrpcProofs.Props.C04", "JrpcProofs.Lemmas.Corr", "JrpcProofs.Facts.Corr", "JrpcProofs.Facts.Backoff"],
+        "assumptions": [
+            "hooks only delay goroutines; two log entries written by different goroutines around one channel rendezvous may come in either order and are reconciled by the replayer (tau steps are counted in the evidence)",
+            "ids of calls that are inside doRequest at the same time differ (id counter; int64 to float64 keys are injective below 2^53 calls)",
+            "'returns' / 'completes' are proved in safety form (every outstanding attempt has an owner that can move; no step of the exit path waits on another party); the final step needs scheduler fairness",
+            "the server starts one handler per request frame it reads (Jrpc.Frames.execFrame)",
+        ],
+        "timeout": 2400,
+    },
+    "C18": {
+        "lean_modules": ["JrpcProofs.Props.C18", "JrpcProofs.Lemmas.Corr", "JrpcProofs.Facts.Corr"],
+        "assumptions": [
+            "hooks only delay goroutines; two log entries written by different goroutines around one channel rendezvous may come in either order and are reconciled by the replayer (tau steps are counted in the evidence)",
+            "ids of calls that are inside doRequest at the same time differ (id counter; int64 to float64 keys are injective below 2^53 calls)",
+            "'returns' / 'completes' are proved in safety form (every outstanding attempt has an owner that can move; no step of the exit path waits on another party); the final step needs scheduler fairness",
+        ],
+        "timeout": 2400,
+    },
 }
